@@ -490,10 +490,9 @@ func TestC05(t *testing.T) {
 	rep.Assume("chunking independence is asserted for fault-free streams only (the statement quantifies over streams and splittings, not faults)")
 	seed := vh.Seed()
 
-	all, err := shippedMessages()
-	if err != nil {
-		t.Fatal(err)
-	}
+	all := shippedOrViolation(rep, t)
+	var err error
+	_ = err
 	msgs := pickMsgs(vh.Sub(seed, "c05-msgs"), all, 30)
 	genv, err := newGateEnv(msgs)
 	if err != nil {
